@@ -156,6 +156,7 @@ type State struct {
 	writeLog  []string        // stores into package-level state after init (C15)
 	trackGlob bool
 	globalObj map[*Object]string // objects reachable from globals at end of init -> label
+	globalMaps map[*MapObj]string
 	inputVars []inputVar
 	deadline  time.Time
 	stepLimit int64
@@ -244,6 +245,9 @@ func (st *State) where() string {
 }
 
 func (st *State) mapSet(m *MapObj, key, val Value) {
+	if st.trackGlob && st.globalMaps[m] != "" && !st.lockHeldByCur() {
+		st.writeLog = append(st.writeLog, fmt.Sprintf("map %s at %s", st.globalMaps[m], st.where()))
+	}
 	for i, k := range m.Keys {
 		if st.sameValue(k, key) {
 			st.trail = append(st.trail, trailEntry{m: m, mLen: -1, mIdx: i, old: m.Vals[i]})
